@@ -10,7 +10,8 @@
 (* gen \subseteq {"resolvers", "server"}: optional outputs configured;     *)
 (* schema fault kinds: "parse", "ext" (orphan extension), "check";         *)
 (* operation fault kinds: "parse", "import" (dangling import), "check",    *)
-(* "libcheck" (fault in a fragment only another file imports and spreads). *)
+(* "libcheck" / "libvar" (faults of a fragment that only another file      *)
+(* imports and spreads).                                                   *)
 (***************************************************************************)
 EXTENDS Naturals, Sequences, FiniteSets, TLC
 
@@ -25,7 +26,10 @@ VARIABLES P,        \* the project (never changes)
 vars == <<P, stage, idx, checked, named, cmdError, written, listed, exit>>
 
 SchemaFaults == {"parse", "ext", "check"}
-OpFaults == {"parse", "import", "check", "libcheck"}   \* libcheck: fault inside a fragment that only ANOTHER file imports and spreads
+OpFaults == {"parse", "import", "check", "libcheck", "libvar"}
+(* libcheck: a fault inside a fragment that only ANOTHER file imports and spreads (visible when the fragment is checked on its own too) *)
+(* libvar:   such a fragment uses a variable that the importing operation does not define: a fault of the fragment's file that   *)
+(*           exists only in the context of the importing operation (a fragment on its own has no variable scope)                *)
 SF(i) == <<"schema", i>>
 OF(j) == <<"operation", j>>
 
@@ -63,8 +67,8 @@ CheckOutcome ==
   IF SchemaWith("ext") # {}   THEN [ok |-> FALSE, some |-> SchemaWith("ext"), all |-> FALSE]   \* resolver stops at its first error
   ELSE IF SchemaWith("check") # {}  THEN [ok |-> FALSE, some |-> SchemaWith("check"), all |-> TRUE]
   ELSE IF OpsWith("import") # {}    THEN [ok |-> FALSE, some |-> OpsWith("import"), all |-> TRUE]
-  ELSE IF OpsWith("check") \cup OpsWith("libcheck") # {}
-                                    THEN [ok |-> FALSE, some |-> OpsWith("check") \cup OpsWith("libcheck"), all |-> TRUE]
+  ELSE IF OpsWith("check") \cup OpsWith("libcheck") \cup OpsWith("libvar") # {}
+                                    THEN [ok |-> FALSE, some |-> OpsWith("check") \cup OpsWith("libcheck") \cup OpsWith("libvar"), all |-> TRUE]
   ELSE [ok |-> TRUE, some |-> {}, all |-> TRUE]
 
 RunCheck(thenGenerate) ==
@@ -108,7 +112,8 @@ Expected(p) ==
   ELSE IF XSchemaWith(p, "ext") # {} THEN fail("ext", XSchemaWith(p, "ext"), FALSE)
   ELSE IF XSchemaWith(p, "check") # {} THEN fail("schemaCheck", XSchemaWith(p, "check"), TRUE)
   ELSE IF XOpsWith(p, "import") # {} THEN fail("import", XOpsWith(p, "import"), TRUE)
-  ELSE IF XOpsWith(p, "check") \cup XOpsWith(p, "libcheck") # {} THEN fail("opsCheck", XOpsWith(p, "check") \cup XOpsWith(p, "libcheck"), TRUE)
+  ELSE IF XOpsWith(p, "check") \cup XOpsWith(p, "libcheck") \cup XOpsWith(p, "libvar") # {}
+       THEN fail("opsCheck", XOpsWith(p, "check") \cup XOpsWith(p, "libcheck") \cup XOpsWith(p, "libvar"), TRUE)
   ELSE IF p.commands = <<"generate", "check">> THEN [exit |-> 1, failing |-> "misuse", some |-> {}, all |-> TRUE, writes |-> XOutputs(p)]
   ELSE [exit |-> 0, failing |-> "none", some |-> {}, all |-> TRUE,
         writes |-> IF p.commands = <<"check">> THEN {} ELSE XOutputs(p)]
